@@ -20,14 +20,15 @@ if [ "$mode" != "detect" ]; then
   go build ./... 2>/dev/null && b=true
   go test -vet=off -count=1 ./... >/tmp/seed-tests.$$ 2>&1 && t=true
   cp $dir/demo_test.go.txt $pkg/zz_seeded_demo_test.go
+  pat="^($(grep -o '^func Test[A-Za-z0-9_]*' $dir/demo_test.go.txt | sed 's/^func //' | paste -sd'|'))\$"
   # the demonstration may need a forced acceleration level or the race detector: it "fails with the change"
   # if it fails in any of these modes, and "passes without" only if it passes in all of them
   rundemo() {
     local ok=0
-    go test -tags verif -vet=off -count=1 -run 'Mut|Demo' ./$pkg/ >/tmp/seed-demo$1a.$$ 2>&1 || ok=1
-    FASTGO_VERIF_ARCHLEVEL=0 go test -tags verif -vet=off -count=1 -run 'Mut|Demo' ./$pkg/ >/tmp/seed-demo$1b.$$ 2>&1 || ok=1
-    FASTGO_VERIF_ARCHLEVEL=1 go test -tags verif -vet=off -count=1 -run 'Mut|Demo' ./$pkg/ >/tmp/seed-demo$1c.$$ 2>&1 || ok=1
-    if [ "$prop" = "C17" ]; then go test -race -tags verif -vet=off -count=1 -run 'Mut|Demo' ./$pkg/ >/tmp/seed-demo$1d.$$ 2>&1 || ok=1; fi
+    go test -tags verif -vet=off -count=1 -run "$pat" ./$pkg/ >/tmp/seed-demo$1a.$$ 2>&1 || ok=1
+    FASTGO_VERIF_ARCHLEVEL=0 go test -tags verif -vet=off -count=1 -run "$pat" ./$pkg/ >/tmp/seed-demo$1b.$$ 2>&1 || ok=1
+    FASTGO_VERIF_ARCHLEVEL=1 go test -tags verif -vet=off -count=1 -run "$pat" ./$pkg/ >/tmp/seed-demo$1c.$$ 2>&1 || ok=1
+    if [ "$prop" = "C17" ]; then go test -race -tags verif -vet=off -count=1 -run "$pat" ./$pkg/ >/tmp/seed-demo$1d.$$ 2>&1 || ok=1; fi
     return $ok
   }
   rundemo 1 || df=true
